@@ -1233,3 +1233,76 @@ func c12CountPaired(c *Ctx) {
 		c.R.Hold("R-count-paired", "no counter is kept next to a registry map", "", sprintf("%d atomic adds examined; none counts the keys of a map", len(ups)))
 	}
 }
+
+// ---------------------------------------------------------------- R-once-scope (C11)
+// What runs under (*sync.Once).Do runs once per OBJECT. A goroutine started there serves the object for its whole
+// life, so the context it is given must live as long: a member of the object, or a fresh root. Handing it a context of
+// the call that happened to come first — the per-stream context of the first listening stream — ends the goroutine
+// when that stream is replaced, and nothing ever starts it again: after a reopen the newer stream's notifications are
+// queued for a dispatcher that is gone.
+func c11OnceScope(c *Ctx) {
+	n := 0
+	for _, fn := range c.P.LibFns {
+		ir.EachInstr(fn, func(_ *ssa.BasicBlock, _ int, in ssa.Instruction) {
+			call, ok := in.(*ssa.Call)
+			if !ok || ir.CallName(call) != "(*sync.Once).Do" || len(call.Call.Args) < 2 {
+				return
+			}
+			mc, ok := call.Call.Args[1].(*ssa.MakeClosure)
+			if !ok {
+				return
+			}
+			cl, ok := mc.Fn.(*ssa.Function)
+			if !ok {
+				return
+			}
+			ir.EachInstr(cl, func(_ *ssa.BasicBlock, _ int, gin ssa.Instruction) {
+				g, ok := gin.(*ssa.Go)
+				if !ok {
+					return
+				}
+				for _, a := range g.Call.Args {
+					if ir.TypeStr(a.Type()) != "context.Context" {
+						continue
+					}
+					n++
+					// where does the context come from? a captured variable of the enclosing call is per-call
+					perCall := ""
+					v := a
+					for d := 0; d < 4; d++ {
+						if u, ok := v.(*ssa.UnOp); ok && u.Op == token.MUL {
+							v = u.X
+							continue
+						}
+						break
+					}
+					if fv, ok := v.(*ssa.FreeVar); ok {
+						for i, f := range cl.FreeVars {
+							if f != fv || i >= len(mc.Bindings) {
+								continue
+							}
+							b := mc.Bindings[i]
+							src := b
+							if al, ok := b.(*ssa.Alloc); ok {
+								for _, r := range *al.Referrers() {
+									if st, ok := r.(*ssa.Store); ok && st.Addr == ssa.Value(al) {
+										src = st.Val
+									}
+								}
+							}
+							if _, _, isMember := ir.LoadedField(src); !isMember {
+								perCall = "a context of the call that runs the Once (" + fv.Name() + " in " + fname(fn) + ")"
+							}
+						}
+					}
+					c.R.Check(perCall == "", "R-once-scope", sprintf("context of the goroutine started under Once in %s", fname(fn)), c.Pos(g.Pos()),
+						"a member of the object or a fresh root: it lives as long as the object",
+						sprintf("%s starts, under sync.Once, a goroutine that is to serve the object for its whole life and hands it %s: when that call's context ends (the first listening stream is replaced) the goroutine exits and the Once never starts it again — what later streams queue for it is never handled", fname(fn), perCall))
+				}
+			})
+		})
+	}
+	if n == 0 {
+		c.R.Hold("R-once-scope", "no goroutine with a context is started under sync.Once", "", "")
+	}
+}
